@@ -674,7 +674,7 @@ func run(env *simrt.Env, sci interface{}) {
 			if e.RemPort != 0 {
 				dst.Port = e.RemPort
 			}
-			dst.IP = ipForm(dst.IP, e.Form)
+			dst.IP = append(net.IP(nil), ipForm(dst.IP, e.Form)...) // the application's own memory, reused below
 			pl, tag := mkPayload()
 			if e.Blocked {
 				copy(pl[4:8], "BLKD")
@@ -739,6 +739,13 @@ func run(env *simrt.Env, sci interface{}) {
 			if !ok {
 				return
 			}
+			// the datagram has been dealt with: the application reuses the address it passed to WriteTo
+			// (whatever the NAT remembers about the destination is the NAT's own copy)
+			wrote := append(net.IP(nil), dst.IP...)
+			for i := range dst.IP {
+				dst.IP[i] ^= 0x5A
+			}
+			dst = &net.UDPAddr{IP: wrote, Port: dst.Port}
 			// who should get it
 			var want *sockT
 			for _, s := range remotes {
